@@ -2,6 +2,7 @@ package checks
 
 import (
 	"fmt"
+	"os"
 	"strings"
 	"sync"
 
@@ -107,6 +108,9 @@ func l1Corpus(c *Ctx, family string, sampleEvery int) []reqCase {
 	out = append(out, reqCase{ID: "headers/many", Files: []*spec.File{corpus.ManyHeadersFile(family+".hh", family+"hh")}})
 	out = append(out, reqCase{ID: "types/many", Files: []*spec.File{corpus.ManyTypesFile(family+".mt", family+"mt")}})
 	out = append(out, reqCase{ID: "headers/case-variants", Files: []*spec.File{corpus.HeaderCaseVariantsFile(family+".hcv", family+"hcv")}})
+	for i, v := range corpus.EnumRuleVariants() {
+		out = append(out, reqCase{ID: "rules/enum/" + v.ID, Files: []*spec.File{corpus.EnumRulesFile(fmt.Sprintf("%s.er%d", family, i), fmt.Sprintf("%ser%d", family, i), v)}})
+	}
 	out = append(out, reqCase{ID: "headers/count", Files: []*spec.File{corpus.HeaderCountFile(family+".hc", family+"hc")}})
 	out = append(out, reqCase{ID: "requests/shared", Files: []*spec.File{corpus.SharedRequestFile(family+".sr", family+"sr")}})
 	out = append(out, reqCase{ID: "same-route/two-services/one-file", Files: corpus.SameRouteServices(family+".same1", family+"same1", false)})
@@ -265,6 +269,9 @@ func c15(c *Ctx) {
 			c.R.Eval(1)
 			if !base.OK() {
 				// acceptance/termination are C12/C16 matters; nothing to compare here
+				if os.Getenv("VERIF_DEBUG_BASE") != "" {
+					fmt.Fprintln(os.Stderr, "BASE", caseBase, base.Crash, base.Error, firstLines(base.Stderr, 2))
+				}
 				c.R.Inconclusive(caseBase+"/repeat", "baseline-not-ok")
 				continue
 			}
